@@ -507,6 +507,11 @@ class _DictStruct(dict, ImmutableMixin):
             self._get_defensive_copy_if_needed(k) for k in super().keys()
         ).keys()
 
+    def __reversed__(self):
+        # like __iter__: the keys are handed out as keys() hands them out (a mutable key of an
+        # immutable owner as a defensive copy), not the stored key objects
+        return reversed(list(self.keys()))
+
     def __or__(self, other):
         return self.copy() | other
 
